@@ -6,6 +6,23 @@ def rel(budget, shards=NC, **kw):
     return dict(engine="native-rel", shards=shards, budget=budget, **kw)
 
 META = {
+    "C06": dict(
+        level="exploration",
+        technique="runtime monitoring: trace-specification monitor over kira::Parameter / tweener modulator driven with MockInfoBuilder, independent easing oracle; end-to-end gain envelopes through the renderer",
+        design_ref="DESIGN.md §3 C06",
+        rule=("Random scenarios: tweenable type (f64,f32,Decibels,Panning,PlaybackRate,Semitones,Mix,Vec3,Duration,ClockSpeed x3 units,Quat) or the tweener modulator; "
+              "1-3 overlapping set() calls with duration {0, < one update, == one update, random}, every easing kind (powi 1..8, powf 0.1..8), start Immediate/Delayed(0)/Delayed/ClockTime (mock clock advancing, optionally paused before the target)/missing clock; "
+              "random update partitions (uniform, jittered, with 20x outliers, with microsecond steps). After every update the monitor checks: old value kept bit-exactly before the start instant; exact law start+(target-start)*ease(elapsed/duration) "
+              "for immediate starts; value within the [ref(tau-one update), ref(tau+one update)] interval for delayed/clock starts; == target from the end on; never outside [start,target]; previous_value()==last value(); interpolated_value(0/1) endpoints; "
+              "retarget starts from the current value. Plus coarse-vs-fine partition comparison and DC-sound gain envelopes through AudioManager. A case is distinct and non-trivial when (type, easing kind, start kind, duration class, number of sets) is new and target != start."),
+        domain="values in documented ranges (dB -80..24, panning +-1, rate +-16, speeds 0.05..500 ticks/s), durations 0..~10 s quantised to ns as the Duration API does, positive easing powers",
+        assumptions=["reference easing curves written independently from the Easing documentation", "timing slack of one update either side of the start instant for delayed/clock starts, as the property allows",
+                     "ClockSpeed values are compared as physical speed (ticks/s), tolerance 1e-11 relative"],
+        quick=[rel(25)],
+        thorough=[rel(600)],
+        level_text="Online monitor over ~10^5 (quick) / 10^7 (thorough) generated tween histories of the real Parameter/Tweener code with an independent oracle; exploration of an unbounded input space, not a proof.",
+        level_note="Trusts the harness reference easing implementation and the MockInfoBuilder-provided clock info as a faithful stand-in for real clocks (C05 covers the real ones).",
+    ),
     "C19": dict(
         level="exploration",
         technique="runtime monitoring: exhaustive f32 sweeps + dense boundary-biased sampling of the public conversion functions against independent f64 oracles",
